@@ -86,11 +86,14 @@ SCENARIOS = {
 
 for _k in ('S1', 'S4', 'S7'):
     SCENARIOS[_k + 'p'] = dict(SCENARIOS[_k], shared_param=True)
+# S1 / S7 with the main-loop task being cancelled instead of an orderly shutdown
+for _k in ('S1', 'S7'):
+    SCENARIOS[_k + 'm'] = dict(SCENARIOS[_k], alphabet=[('m' if a == 's' else a) for a in SCENARIOS[_k]['alphabet']], phase2=False)
 # S2 with the Data packets arriving inside link-layer envelopes
 SCENARIOS['S2w'] = dict(SCENARIOS['S2'], packets={k: (dict(v, lp=True) if 'data' in v else v) for k, v in SCENARIOS['S2']['packets'].items()})
 
-LEN = {'quick': {'S1': 5, 'S2': 5, 'S3': 5, 'S3b': 5, 'S4': 5, 'S5': 5, 'S7': 5, 'S1p': 4, 'S4p': 4, 'S7p': 4, 'S2w': 4},
-       'thorough': {'S1': 6, 'S2': 6, 'S3': 6, 'S3b': 6, 'S4': 6, 'S5': 6, 'S7': 6, 'S1p': 5, 'S4p': 5, 'S7p': 5, 'S2w': 5}}
+LEN = {'quick': {'S1': 5, 'S2': 5, 'S3': 5, 'S3b': 5, 'S4': 5, 'S5': 5, 'S7': 5, 'S1p': 4, 'S4p': 4, 'S7p': 4, 'S2w': 4, 'S1m': 4, 'S7m': 4},
+       'thorough': {'S1': 6, 'S2': 6, 'S3': 6, 'S3b': 6, 'S4': 6, 'S5': 6, 'S7': 6, 'S1p': 5, 'S4p': 5, 'S7p': 5, 'S2w': 5, 'S1m': 5, 'S7m': 5}}
 DEV = {'quick': 1, 'thorough': 2}
 
 
@@ -114,7 +117,7 @@ def verdict_accepts(token, fe_name):
 
 def script_valid(seq):
     # nothing is delivered or expressed... after shutdown except clock ticks; cancel only after its express fired
-    if 's' in seq[:-1] and seq[-1] != 't':
+    if ('s' in seq[:-1] or 'm' in seq[:-1]) and seq[-1] != 't':
         return False
     last = seq[-1]
     if last[0] == 'c' and last[1:].isdigit():
@@ -181,7 +184,7 @@ class Built:
                 d = '00' * 32
             self.interests[i] = {'comps': comps_of(it['name']), 'cbp': it['cbp'], 'digest': d, 'await_delay': it.get('await_delay', 0),
                                  'lifetime': it['lifetime'], 'vlat': it.get('vlat', 0),
-                                 'verdict': it.get('verdict', 'accept'), 'name': it['name']}
+                                 'verdict': it.get('verdict', 'accept'), 'name': it['name'], 'raw': it.get('raw', False)}
 
 
 _BUILT = {}
@@ -258,6 +261,10 @@ class PitScenario:
                 p = self.shared_param
                 p.can_be_prefix, p.lifetime, p.nonce, p.must_be_fresh = it['cbp'], it['lifetime'], 1000 + i, False
                 coro = self.fe.express(self.app, name, validator=self._validator(i), interest_param=p)
+            elif it.get('raw') and self.fe.name == 'legacy':
+                # the caller also asks for the raw packet bytes (4-tuple result)
+                coro = self.fe.express(self.app, name, validator=self._validator(i), lifetime=it['lifetime'],
+                                       can_be_prefix=it['cbp'], nonce=1000 + i, need_raw_packet=True)
             else:
                 coro = self.fe.express(self.app, name, validator=self._validator(i), lifetime=it['lifetime'],
                                        can_be_prefix=it['cbp'], nonce=1000 + i)
@@ -294,6 +301,8 @@ class PitScenario:
                 t.cancel()
         elif ev == 's':
             self.app.shutdown()
+        elif ev == 'm':
+            self.main.cancel()          # the task running main_loop is cancelled (Ctrl+C): face down, everything pending is cancelled
         else:
             if self.face.running:
                 self.face.deliver(self.b.packets[ev], label=ev)
@@ -450,7 +459,7 @@ def unit(arg):
                     fired += 1
                 elif e[0] == 'quiescent':
                     acc.state((sname, fe, tuple(sorted(done)), fired, tuple(script[:fired])))
-            ncand = sum(1 for e in run.trace if e[0] in ('rx',)) + sum(1 for e in script if e in ('t', 's') or e[0] == 'c')
+            ncand = sum(1 for e in run.trace if e[0] in ('rx',)) + sum(1 for e in script if e in ('t', 's', 'm') or e[0] == 'c')
             if ncand >= 2:
                 acc.nontrivial += 1
             for sig, what in judge(sname, fe, run):
